@@ -144,3 +144,57 @@ Definition spec_step (t : table) (now : Z) (ch : list cel) (f : fin) (o : obs) :
   | FInit ic => spec_init t (ch_conds ch ++ ic) (ch_attrs ch) (ch_assigns ch) o
   | FFoc ic => spec_foc t (ch_conds ch ++ ic) (ch_attrs ch) (ch_assigns ch) o
   end.
+
+(* ---- the domain of the theorem C16_Proofs3.model_meets_spec, as decidable checks (evaluated on
+        every case by C16_Check, so that the hypotheses are validated against what was executed) ---- *)
+(* a value of the column's kind (the domain: type-correct conditions and Attrs/Assign values) *)
+Definition typed (p : col * val) : bool :=
+  match fst p, snd p with
+  | (CId | CAge | CCat | CUat | CDel), (VInt _ | VNull) => true
+  | (CName | CEmail), (VStr _ | VNull) => true
+  | _, _ => false
+  end.
+
+
+(* Attrs/Assign arguments: the key-value form stands alone (domain) *)
+Definition kv_alone (l : list arg) : bool :=
+  match l with
+  | [AKV _ _] => true
+  | _ => forallb (fun a => match a with AKV _ _ => false | _ => true end) l
+  end.
+
+
+Definition args_typed (l : list arg) : bool := forallb typed (flat_map arg_pairs l).
+Definition conds_typed (cs : list cond) : bool := forallb typed (flat_map cond_pairs cs).
+
+
+Definition no_del (ps : list (col * val)) : bool :=
+  forallb (fun p => negb (col_eqb (fst p) CDel)) ps.
+
+
+(* domain: Attrs/Assign name data columns only; conditions name key and data columns, keys positive *)
+Definition data_key (c : col) : bool := match c with CName | CAge | CEmail => true | _ => false end.
+Definition args_data (l : list arg) : bool := forallb (fun p => data_key (fst p)) (flat_map arg_pairs l).
+Definition conds_dom (cs : list cond) : bool :=
+  forallb (fun p => match fst p, snd p with
+                    | CId, VInt z => 0 <? z
+                    | CId, _ => false
+                    | c, _ => data_key c
+                    end) (flat_map cond_pairs cs).
+
+
+Definition in_domain (ch : list cel) (f : fin) : bool :=
+  match f with
+  | FSave _ | FCreateOC _ _ => true
+  | FInit ic | FFoc ic =>
+      kv_alone (ch_attrs ch) && kv_alone (ch_assigns ch)
+      && conds_typed (ch_conds ch ++ ic) && args_typed (ch_attrs ch) && args_typed (ch_assigns ch)
+      && conds_dom (ch_conds ch ++ ic) && args_data (ch_attrs ch) && args_data (ch_assigns ch)
+  end.
+
+(* keys strictly increasing: the table as the harness dumps it (ORDER BY id) *)
+Fixpoint sortedb (t : table) : bool :=
+  match t with
+  | a :: ((b :: _) as r) => (r_id a <? r_id b) && sortedb r
+  | _ => true
+  end.
